@@ -119,9 +119,9 @@ func init() {
 			for id := range model.F {
 				inBase[id] = true
 			}
-			lastKind := map[b6.FeatureID]string{}     // "plain" | "searchable"
-			modifiedOnly := map[string]bool{}          // id+key added by a plain AddTag on a base feature
-			overwritten := map[string]int{}            // id+key -> number of AddTag
+			lastKind := map[b6.FeatureID]string{} // "plain" | "searchable"
+			modifiedOnly := map[string]bool{}     // id+key added by a plain AddTag on a base feature
+			overwritten := map[string]int{}       // id+key -> number of AddTag
 			added := map[b6.FeatureID]int{}
 			twice := false
 			n := r.Range(1, 30)
